@@ -15,7 +15,8 @@ EXTENDS Jsep, Json
 AbsState == [sig |-> sig, hasLocal |-> local # 0, hasRemote |-> remote # 0]
 
 EdgeRec ==
-  [ from    |-> AbsState,
+  [ pre     |-> pre,
+    from    |-> AbsState,
     call    |-> call',
     res     |-> result',
     allowed |-> Allowed(sig, call'),
